@@ -14,8 +14,10 @@ Record inv := mkinv {
   v_exit : Z;                                    (* exit code reported by click *)
   v_got : option (option (list str) * option (list str));
      (* (samples, ids) the entry point was called with; None: it was not called *)
-  v_kinds : Z * Z
+  v_kinds : Z * Z;
      (* Python type of the two collections: 0 None, 1 set, 2 tuple, 3 anything else *)
+  v_usage : bool
+     (* the command printed click's usage-error text ("Usage: ..." and "Error: ...") *)
 }.
 
 Record rcase := mkr {
@@ -49,22 +51,45 @@ Definition agree_inv (cmd : Z) (v : inv) : bool :=
 
 Definition clean (s : str) : bool := forallb (fun c => negb (is_term c)) s.
 
+(* the text [t] is the list [ids] written in shape [sh] *)
+Definition text_eqb : str -> str -> bool := list_eqb Z.eqb.
+Definition written_as (sh : shape) (t : str) (ids : list str) : bool :=
+  match file_of sh ids with Some f => text_eqb t f | None => false end.
+
+(* how the file [t] of one invocation relates to the repeated options [opts] of the other
+   ([other] = the repeated options given next to the file): 1 the file shows exactly the
+   list (LF, unterminated last line, CRLF, CRLF unterminated), 2 the list followed by one
+   blank line, 0 anything else *)
+Definition file_matches (opts : list str) (t : str) (other : list str) : Z :=
+  if negb (strs_eqb opts []) && forallb clean opts && strs_eqb other [] then
+    if existsb (fun sh => written_as sh t opts) strict_shapes then 1
+    else if existsb (fun sh => written_as sh t opts) blank_shapes then 2
+    else 0
+  else 0.
+
 (* [b] spells the selection [a] makes with repeated options as a file, or the
-   other way round, or identically *)
-Definition same_selection (ao : list str) (af : option str) (bo : list str) (bf : option str) : bool :=
+   other way round, or identically: 0 no, 1 the same list, 2 the same list plus a blank line *)
+Definition same_selection (ao : list str) (af : option str) (bo : list str) (bf : option str) : Z :=
   match af, bf with
-  | None, None => strs_eqb ao bo
-  | None, Some t => negb (strs_eqb ao []) && forallb clean ao && list_eqb Z.eqb t (join_lines ao)
-                    && strs_eqb bo []
-  | Some t, None => negb (strs_eqb bo []) && forallb clean bo && list_eqb Z.eqb t (join_lines bo)
-                    && strs_eqb ao []
-  | Some t, Some t' => list_eqb Z.eqb t t' && strs_eqb ao [] && strs_eqb bo []
+  | None, None => if strs_eqb ao bo then 1 else 0
+  | None, Some t => file_matches ao t bo
+  | Some t, None => file_matches bo t ao
+  | Some t, Some t' => if text_eqb t t' && strs_eqb ao [] && strs_eqb bo [] then 1 else 0
   end.
+
+(* an empty entry names nothing: collections are compared without it when the file ends in a
+   blank line *)
+Definition drop_empty (l : list str) : list str := filter (fun s => negb (str_eqb s [])) l.
+Definition coll_equiv (blank ordered : bool) (a b : option (list str)) : bool :=
+  if blank then coll_eqb ordered (option_map drop_empty a) (option_map drop_empty b)
+  else coll_eqb ordered a b.
+Definition got_equiv (cmd ms mi : Z) (a b : option (list str) * option (list str)) : bool :=
+  coll_equiv (ms =? 2) false (fst a) (fst b) && coll_equiv (mi =? 2) (cmd =? 2) (snd a) (snd b).
 
 Definition holds_inv (v : inv) : bool :=
   (* both forms of sample selection: usage error, entry point not reached *)
   (match v_sopts v, v_sfile v with
-   | _ :: _, Some _ => (v_exit v =? 2) && match v_got v with None => true | Some _ => false end
+   | _ :: _, Some _ => (v_exit v =? 2) && v_usage v && match v_got v with None => true | Some _ => false end
    | _, _ => true
    end)
   (* a run that did not reach the entry point exits non-zero *)
@@ -76,10 +101,11 @@ Definition holds_resolve (k : rcase) : bool :=
      | None => true
      | Some b =>
        holds_inv b
-       && (if same_selection (v_sopts (r_a k)) (v_sfile (r_a k)) (v_sopts b) (v_sfile b)
-              && same_selection (v_iopts (r_a k)) (v_ifile (r_a k)) (v_iopts b) (v_ifile b)
+       && (let ms := same_selection (v_sopts (r_a k)) (v_sfile (r_a k)) (v_sopts b) (v_sfile b) in
+           let mi := same_selection (v_iopts (r_a k)) (v_ifile (r_a k)) (v_iopts b) (v_ifile b) in
+           if negb (ms =? 0) && negb (mi =? 0)
            then (v_exit (r_a k) =? v_exit b)
-                && opt_eqb (got_eqb (r_cmd k)) (v_got (r_a k)) (v_got b)
+                && opt_eqb (got_equiv (r_cmd k) ms mi) (v_got (r_a k)) (v_got b)
                 && match v_got b with Some _ => true | None => false end
            else true)
      end.
@@ -99,13 +125,22 @@ Definition memz (x : Z) (l : list Z) : bool := existsb (Z.eqb x) l.
 Record ccase := mkcc {
   c_cmd : Z;                         (* 0 transform 1 simphenotype 2 ld 3 index 4 clump 5 simgenotype 6 karyogram *)
   c_both : bool;                     (* both forms of sample selection on the command line *)
+  c_ids_both : bool;                 (* --id next to --ids-file (the property does not say which wins) *)
+  c_from_gts : bool;                 (* ld --from-gts: the IDs name variants of the genotypes file *)
   c_exit : Z;                        (* CLI exit code *)
   c_raised : bool;                   (* an exception (other than SystemExit 0) left the command *)
-  c_out : list Z;                    (* everything the CLI run wrote: interned lines of every output file + stdout *)
+  c_out : list Z;                    (* everything the CLI run wrote: interned lines of every output file *)
   c_py : res (list Z);               (* the documented Python entry point on the same parameters *)
   c_alt : option (Z * list Z);       (* the command line respelled (files <-> repeated options, short <-> long) *)
+  c_ref : option (Z * list Z * list Z);
+     (* the same command line without the entries that name nothing: exit code, output, messages *)
+  c_verbose : bool;                  (* the verbosity lets warnings through (default, INFO, WARNING, DEBUG) *)
+  c_logs : list (Z * Z * list Z);
+     (* what the run reported: log records of level >= WARNING (30 40 50) and library warnings (25) as
+        (level, interned text, interned words) *)
   c_req_s : option (list Z); c_known_s : list Z; c_out_s : option (list Z);   (* samples: requested, in the data, in the output *)
-  c_req_i : option (list Z); c_known_i : list Z; c_out_i : option (list Z)    (* ids: same *)
+  c_sel_i : option (list Z);         (* ids as listed by the user *)
+  c_req_i : option (list Z); c_known_i : list Z; c_out_i : option (list Z)    (* ids: requested (+ target), in the data, in the output *)
 }.
 
 (* the entries of the output were asked for and exist; nothing else appears *)
@@ -120,8 +155,54 @@ Definition only_requested (req : option (list Z)) (known : list Z) (out : option
        end
   end.
 
+(* ---- "unknown IDs or samples are reported and ignored" ------------------- *)
+
+Definition unknown_of (sel : option (list Z)) (known : list Z) : list Z :=
+  match sel with None => [] | Some l => filter (fun x => negb (memz x known)) l end.
+
+Definition log_level (r : Z * Z * list Z) : Z := fst (fst r).
+Definition log_text (r : Z * Z * list Z) : Z := snd (fst r).
+Definition log_words (r : Z * Z * list Z) : list Z := snd r.
+
+(* the run says something it does not say without the unknown entries *)
+Definition new_message (logs : list (Z * Z * list Z)) (ref_msgs : list Z) : bool :=
+  existsb (fun r => (25 <=? log_level r) && negb (memz (log_text r) ref_msgs)) logs.
+(* a warning (or error) of the program names the entry *)
+Definition named (logs : list (Z * Z * list Z)) (x : Z) : bool :=
+  existsb (fun r => (30 <=? log_level r) && memz x (log_words r)) logs.
+
+(* how an unknown entry is reported: 1 = a message that is absent without it (what the property says),
+   2 = moreover a warning names it (where the commands do so: the IDs of transform and simphenotype and the
+   haplotype IDs of ld; at most five entries are listed by those messages), 0 = not judged *)
+Definition demand_samples (k : ccase) : Z :=
+  if (0 <=? c_cmd k) && (c_cmd k <=? 2) then 1 else 0.
+Definition demand_ids (k : ccase) : Z :=
+  if (c_cmd k =? 0) || (c_cmd k =? 1) then 2
+  else if c_cmd k =? 2 then (if c_from_gts k then 1 else 2)
+  else 0.
+
+Definition reported (demand : Z) (unk : list Z) (logs : list (Z * Z * list Z)) (ref_msgs : list Z) : bool :=
+  match unk with
+  | [] => true
+  | _ => ((demand <? 1) || new_message logs ref_msgs)
+         && ((demand <? 2) || (5 <? lenZ unk) || forallb (named logs) unk)
+  end.
+
+(* against the run without the unknown entries: same exit status, same output; and if it completes and
+   warnings are not switched off, the unknown entries are reported *)
+Definition holds_unknown (k : ccase) : bool :=
+  match c_ref k with
+  | None => true
+  | Some (e, o, msgs) =>
+    (c_exit k =? e) && (negb (e =? 0) || zl_eqb (c_out k) o)
+    && (negb (c_exit k =? 0) || negb (c_verbose k)
+        || (reported (demand_samples k) (unknown_of (c_req_s k) (c_known_s k)) (c_logs k) msgs
+            && reported (demand_ids k) (unknown_of (c_sel_i k) (c_known_i k)) (c_logs k) msgs))
+  end.
+
 Definition holds_cli (k : ccase) : bool :=
   (if c_both k then (c_exit k =? 2)
+   else if c_ids_both k then true
    else match c_py k with
         | Ok o => (c_exit k =? 0) && zl_eqb (c_out k) o
         | Err _ => negb (c_exit k =? 0)
@@ -130,11 +211,13 @@ Definition holds_cli (k : ccase) : bool :=
   && (match c_alt k with
       | Some (e, o) => (e =? c_exit k) && (negb (e =? 0) || zl_eqb o (c_out k))
       | None => true end)
+  && holds_unknown k
   && (negb (c_exit k =? 0)
       || (only_requested (c_req_s k) (c_known_s k) (c_out_s k)
           && only_requested (c_req_i k) (c_known_i k) (c_out_i k))).
 
-(* model: the command line is the front end composed with the entry point *)
+(* model: the command line is the front end composed with the entry point (for --id next to --ids-file
+   the entry point is run with the entries of the file: the file wins, as in resolve_ids) *)
 Definition model_cli (k : ccase) : Z * option (list Z) :=
   let r := if c_both k then Err E_Usage else c_py k in
   (exit_code r, match r with Ok o => Some o | Err _ => None end).
